@@ -211,15 +211,21 @@ def query_judge(q, t, r):
     return vsa.query_oracle(q[0], [t] + list(q[1:]), r)
 
 
+def param_show(p):
+    if isinstance(p, tuple):
+        return ("cardinality%+d" % p[1]) if p[0] == "card" else ("member#%d%+d" % (p[1], p[2]))
+    return str(p)
+
+
 def query_show(q, who):
     if q[0] == "cardinality":
         return "%s.cardinality" % who
     if q[0] == "members":
         return "%s.solution(v) for every v" % who
     if q[0] == "eval":
-        return "%s.eval(%s, signed=%s)" % (who, q[1], bool(q[2]))
+        return "%s.eval(%s, signed=%s)" % (who, param_show(q[1]), bool(q[2]))
     if q[0] == "solution":
-        return "%s.solution(%s)" % (who, q[1])
+        return "%s.solution(%s)" % (who, param_show(q[1]))
     return "%s.%s(signed=%s)" % (who, q[0], bool(q[1]))
 
 
@@ -492,7 +498,8 @@ def gen_programs(ctx):
     for _ in range(ctx.pick(120, 1200)):
         w = rng.choice(vsa.WIDE_WIDTHS)
         x = few_members(rng, w) if rng.random() < 0.5 else vsa.rand_si(rng, w)
-        out.append(([(x, rng.choice([None, "v"]), rng.choice(["si", "si", "ast"]))], prog_fan(x, rng, nsteps=ctx.pick(6, 99)), "seq-wide"))
+        name = rng.choice([None, "v"])
+        out.append(([(x, name, rng.choice(["si", "ast"]) if name else "si")], prog_fan(x, rng, nsteps=ctx.pick(6, 99)), "seq-wide"))
     # (2) two / three objects under every name mode: joins, meets, widening
     for w in (1, 2):
         sis = vsa.all_sis(w)
